@@ -43,6 +43,7 @@ type scenario struct {
 	Seed     int64   `json:"seed"`
 	Backlog  int     `json:"channel_capacity"` // 0: unbuffered hand-over (logical time); >0: bursts into a buffered channel, no faults
 	Spelling string  `json:"protocol_as_configured,omitempty"`
+	ByName   bool    `json:"sink_configured_by_name,omitempty"` // url: <name>:<port>, resolved by the harness's DNS responder
 }
 
 type handed struct {
@@ -61,6 +62,7 @@ type sinkConn struct {
 
 type sink struct {
 	proto  string
+	host   string // address the sink listens on ("" = 127.0.0.1)
 	port   int
 	mu     sync.Mutex
 	cond   *sync.Cond
@@ -83,7 +85,11 @@ func newSink(proto string) (*sink, error) {
 }
 
 func (s *sink) open(port int) error {
-	addr := fmt.Sprintf("127.0.0.1:%d", port)
+	host := s.host
+	if host == "" {
+		host = "127.0.0.1"
+	}
+	addr := fmt.Sprintf("%s:%d", host, port)
 	if s.proto == "udp" {
 		pc, err := net.ListenPacket("udp", addr)
 		if err != nil {
@@ -364,7 +370,7 @@ func genMsg(g *mon.RNG, scn, k int, content string, maxLen int) []byte {
 
 type result struct {
 	Stalls, StallsThatBlockedAWrite int
-	Pauses, IdlePeriods             int
+	Pauses, IdlePeriods, Failovers  int
 	Kind, What                      string
 	Inconcl                         string
 	Handed                          int
@@ -399,7 +405,17 @@ func runScenario(sc scenario, dir string) (res result, wit witness) {
 	if sc.Spelling != "" {
 		spelling = sc.Spelling // another name net.Dial takes for the same transport (tcp4, udp4)
 	}
-	os.WriteFile(conf, []byte(fmt.Sprintf("url: 127.0.0.1:%d\nprotocol: %s\nretry-max: %d\n", s.port, spelling, sc.Retry)), 0o644)
+	sinkHost := "127.0.0.1"
+	sinkName := fmt.Sprintf("sink-%d-%d.mq.verif.test", sc.ID, sc.Seed&0xffff)
+	if sc.ByName {
+		if err := dnsStart(); err != nil {
+			res.Inconcl = "cannot start the DNS responder: " + err.Error()
+			return
+		}
+		dnsSet(sinkName, [4]byte{127, 0, 0, 1})
+		sinkHost = sinkName
+	}
+	os.WriteFile(conf, []byte(fmt.Sprintf("url: %s:%d\nprotocol: %s\nretry-max: %d\n", sinkHost, s.port, spelling, sc.Retry)), 0o644)
 	defer os.Remove(conf)
 	var ec uint64
 	p := producer.NewProducer("rawSocket")
@@ -555,9 +571,17 @@ func runScenario(sc scenario, dir string) (res result, wit witness) {
 				if blocked {
 					res.StallsThatBlockedAWrite++
 				}
-			case "down":
+			case "down", "failover":
 				sinkUp = false
 				s.down()
+				if f.Kind == "failover" {
+					// the sink's name now points to the standby address; the standby comes up after f.Down hand-overs
+					dnsSet(sinkName, [4]byte{127, 0, 0, 2})
+					s.mu.Lock()
+					s.host = "127.0.0.2"
+					s.mu.Unlock()
+					res.Failovers++
+				}
 				for d := 0; d < f.Down && j < sc.N; d++ {
 					if !handover(true, j, nil) {
 						return
@@ -762,6 +786,14 @@ func scenarios(seed int64, thorough bool) []scenario {
 	for _, r := range []int{0, 2} {
 		add(scenario{Proto: "tcp", Retry: r, N: 5 + 25, Content: "plain", Faults: []fault{{After: 5, Kind: "stall", PauseMs: 6500}}})
 	}
+	// the sink configured by name: the name keeps its address across a close / a down period, or - fail-over - points to
+	// a standby address (127.0.0.2, same port) from the fault on; delivery must resume at whatever the name resolves to
+	for _, r := range []int{0, 2} {
+		add(scenario{Proto: "tcp", ByName: true, Retry: r, N: 5 + 25, Content: "plain", Faults: []fault{{After: 5, Kind: "close"}}})
+		add(scenario{Proto: "tcp", ByName: true, Retry: r, N: 5 + 3 + 25, Content: "plain", Faults: []fault{{After: 5, Kind: "down", Down: 3}}})
+		add(scenario{Proto: "tcp", ByName: true, Retry: r, N: 5 + 3 + 25, Content: "plain", Faults: []fault{{After: 5, Kind: "failover", Down: 3}}})
+		add(scenario{Proto: "tcp", ByName: true, Retry: r, N: 5 + 25, Content: "plain", Faults: []fault{{After: 5, Kind: "failover", Down: 0}}})
+	}
 	// faults that meet a producer which has been running for a while (longer than the usual 5/10 s connect,
 	// keep-alive and idle time-outs): a quiet quarter of a minute, then the sink closes / goes away and comes back
 	for _, kind := range []string{"close", "rst", "down"} {
@@ -832,7 +864,7 @@ func main() {
 	}
 	scs := scenarios(run.Seed, run.Thorough())
 	var msgs, faults, lost, delivered, stalls, stallsBlocked int64
-	var maxGap, idles int64
+	var maxGap, idles, failovers int64
 	var mu sync.Mutex
 	kinds := map[string]int{}
 	sem := make(chan struct{}, 24)
@@ -850,6 +882,7 @@ func main() {
 			atomic.AddInt64(&lost, int64(r.Lost))
 			atomic.AddInt64(&stalls, int64(r.Stalls))
 			atomic.AddInt64(&idles, int64(r.IdlePeriods))
+			atomic.AddInt64(&failovers, int64(r.Failovers))
 			atomic.AddInt64(&stallsBlocked, int64(r.StallsThatBlockedAWrite))
 			atomic.AddInt64(&delivered, int64(r.Delivered))
 			mu.Lock()
@@ -896,9 +929,10 @@ func main() {
 	run.Set("faults_by_kind", kinds)
 	run.Set("stalls_injected", stalls)
 	run.Set("faults_met_by_a_producer_older_than_12_s", idles)
+	run.Set("fail_overs_of_a_sink_configured_by_name", failovers)
 	run.Set("stalls_in_which_a_producer_write_blocked_mid_message", stallsBlocked)
 	run.Set("backends_not_reached", []string{"kafka (sarama)", "kafka (segmentio)", "nsq: need brokers that do not exist in this sandbox"})
-	run.SetRule("real producer.NewProducer('rawSocket') + config file + Run() against an in-process sink. Fault enumeration: {graceful close, RST, mid-line reset, stall (sink stops reading until a producer write blocks mid-message, then RST), pause (the same, but the sink sleeps 6.5 s and then reads on over the same connection), listener+connection down} × fault position {before first, after message 1,2,5,17} × downtime {0,1,5,50 hand-overs} × retry-max {0,1,2,5}, tcp and udp (also configured as tcp4 / udp4), plus close / RST / down after a quiet 12.5 s (a producer that is no longer young), plus seeded sequences of 2-5 faults; contents with every % verb, %%, trailing %, binary octets, up to 256 KiB, and a fault-free ladder of exact lengths (2^k and neighbours, doublings). Oracle over the sink's byte streams (connections in accept order): every complete line is byte-identical to a handed-over message plus newline, no duplicates, no inversions, every message handed over while the sink had been reachable for more than 4 messages is present, delivery resumes after every fault. distinct = scenario descriptor")
+	run.SetRule("real producer.NewProducer('rawSocket') + config file + Run() against an in-process sink. Fault enumeration: {graceful close, RST, mid-line reset, stall (sink stops reading until a producer write blocks mid-message, then RST), pause (the same, but the sink sleeps 6.5 s and then reads on over the same connection), listener+connection down} × fault position {before first, after message 1,2,5,17} × downtime {0,1,5,50 hand-overs} × retry-max {0,1,2,5}, tcp and udp (also configured as tcp4 / udp4), plus close / RST / down after a quiet 12.5 s (a producer that is no longer young), plus a sink configured by NAME (resolved by an in-process DNS responder) that keeps its address or fails over to a standby address at the fault, plus seeded sequences of 2-5 faults; contents with every % verb, %%, trailing %, binary octets, up to 256 KiB, and a fault-free ladder of exact lengths (2^k and neighbours, doublings). Oracle over the sink's byte streams (connections in accept order): every complete line is byte-identical to a handed-over message plus newline, no duplicates, no inversions, every message handed over while the sink had been reachable for more than 4 messages is present, delivery resumes after every fault. distinct = scenario descriptor")
 	run.Assume("bounded gap = at most 4 judged messages after the sink is reachable again (derivation in DESIGN.md C14)")
 	run.Assume("loopback TCP delivers what the kernel accepted within 20 s (watchdog for 'never arrived')")
 	run.Finish()
